@@ -421,6 +421,9 @@ def dumpW (cls : Nat) (w : Wr F) : String :=
   toString cls ++ " 1 ; " ++ showNats w.names ++ " ; " ++ showNats w.fpNames ++ " ; " ++
     shs (w.params.map (·.2.x)) ++ " ; " ++ shs (w.fps.map (·.value))
 
+def closeRel (a b : F) : Bool :=
+  sh a == sh b || fabs (a - b) ≤ (Float.ofScientific 1 true 0 / 1099511627776.0) * fmax (fabs a) (fabs b)
+
 /-- verdict of a copy / clone / assignment (`copy_carries`, `assign_carries`): the implementation's
 copy shares the function, is aligned (`alignedNames`, the predicate of `every_wrapper_aligned`) and
 carries the source's names, transformed values and private copy -/
@@ -435,9 +438,17 @@ def copyVerdict (impl : Option (List String)) (src : Wr F) : String :=
         if same != "1" then "FAIL:copy_carries"
         else if !(alignedNames pn fpn) then "FAIL:copy_carries"
         else if pn != src.names then "FAIL:copy_carries"
-        else if " ".intercalate xs != shs (src.params.map (·.2.x)) then "FAIL:copy_carries"
-        else if " ".intercalate fpv != shs (src.fps.map (·.value)) then "FAIL:copy_carries"
-        else "ok"
+        else
+          -- same transformed values and same private copy (up to 2^-40 relative: a copy made by
+          -- another route than member-wise copy may differ by rounding; the bitwise comparison is the
+          -- correspondence check's)
+          match fls? xs, fls? fpv with
+          | some xs, some fpv =>
+            if xs.length != src.params.length || fpv.length != src.fps.length then "FAIL:copy_carries"
+            else if !((xs.zip (src.params.map (·.2.x))).all (fun (a, b) => closeRel a b)) then "FAIL:copy_carries"
+            else if !((fpv.zip (src.fps.map (·.value))).all (fun (a, b) => closeRel a b)) then "FAIL:copy_carries"
+            else "ok"
+          | _, _ => "FAIL:parse"
       | _, _ => "FAIL:parse"
     | _ => "FAIL:copy_carries"
 
@@ -552,6 +563,13 @@ def oD2 (cs : List (Coef F)) (f : Fn F) (w : Wr F) (n : Nat) : F :=
   match w.d2 pi (polyDfE cs) (polyD2fE cs) f n with | .ok x => x | .error _ => nan
 def oD2x (cs : List (Coef F)) (f : Fn F) (w : Wr F) (n m : Nat) : F :=
   match w.d2x pi (polyD2fE cs) f n m with | .ok x => x | .error _ => nan
+
+/-- a derivative with respect to a parameter the wrapper has is defined (`obj_chain_rule_*`: the
+model returns a value): an exception of the implementation there is a failing input -/
+def derivDefined (impl : Option (List String)) : String :=
+  match impl with
+  | some (t :: _) => if t.startsWith "exc:" then "FAIL:derivative_defined" else "-"
+  | _ => "-"
 
 def step (s : St) (op : List String) (impl : Option (List String)) : St × String × String :=
   match op with
@@ -685,8 +703,18 @@ def step (s : St) (op : List String) (impl : Option (List String)) : St × Strin
       if k ≥ 4 then (s, "bad-op", "-") else
       match s.t[j]? with
       | some (some p) =>
-        let out := shs [p.x, p.getOriginal pi, p.d1 pi, p.d2 pi]
-        ({ s with t := s.t.set! k (some p) }, out, newVerdict impl out)
+        let vals := [p.x, p.getOriginal pi, p.d1 pi, p.d2 pi]
+        -- the clone carries the transformed value and every field of the transform: the same
+        -- coordinate, original value and derivatives as the source
+        let verdict := match impl with
+          | some t => match fls? t with
+            | some iv =>
+              if iv.length != 4 then "FAIL:parse"
+              else if (iv.zip vals).all (fun (a, b) => closeRel a b)
+              then "ok" else "FAIL:clone_carries"
+            | none => "FAIL:parse"
+          | none => "-"
+        ({ s with t := s.t.set! k (some p) }, shs vals, verdict)
       | _ => (s, "bad-op", "-")
     | _, _ => (s, "bad-op", "-")
   | "w.new" :: n :: rest =>
@@ -743,16 +771,49 @@ def step (s : St) (op : List String) (impl : Option (List String)) : St × Strin
       | some pl => doSet s impl s.cur pl
       | none => (dropAll s, "exc:notfound", "-")
     | _, _, _ => (s, "bad-op", "-")
+  | ["w.fire"] =>
+    -- `fireParameterChanged` called directly (it is public): every private copy is refreshed; this is
+    -- `setParametersValues` of the empty list
+    doPriv s impl s.cur (fun w => w.setValues pi []) (fun _ => true)
+  | ["w.names"] =>
+    -- names of `parameters_` and of `functionParameters_`: `every_wrapper_aligned`
+    match getW s s.cur with
+    | some (_, _, w, _, _) =>
+      let verdict := match impl with
+        | some t => match splitSemi t with
+          | [pn, fpn] => match pn.mapM nat?, fpn.mapM nat? with
+            | some pn, some fpn => if alignedNames pn fpn && pn == w.names then "ok" else "FAIL:every_wrapper_aligned"
+            | _, _ => "FAIL:parse"
+          | _ => "FAIL:parse"
+        | none => "-"
+      (s, showNats w.names ++ " ; " ++ showNats w.fpNames, verdict)
+    | none => (s, "bad-op", "-")
   | ["w.get"] =>
     match getW s s.cur with
-    | some (_, _, _, f, cs) => let v := sh (Poly.f cs f.vals); (s, v ++ " ; " ++ v ++ " ; 1", newVerdict impl (v ++ " ; " ++ v ++ " ; 1"))
+    | some (_, _, _, f, cs) =>
+      let v := sh (Poly.f cs f.vals)
+      -- `getValue()` is the function where it stands (`wrap_f_eq`), reading it moves nothing, and
+      -- `getFunction()` is the shared function object
+      let verdict := match impl with
+        | some t => match splitSemi t with
+          | [[a], [b], [same], full] =>
+            match fls? full with
+            | some full =>
+              if same != "1" then "FAIL:copy_carries"
+              else if shs full != shs f.vals then "FAIL:get_is_pure"
+              else if a != sh (Poly.f cs full) || b != a then "FAIL:wrap_f_eq"
+              else "ok"
+            | none => "FAIL:parse"
+          | _ => "FAIL:parse"
+        | none => "-"
+      (s, v ++ " ; " ++ v ++ " ; 1 ; " ++ shs f.vals, verdict)
     | none => (s, "bad-op", "-")
   | ["w.d1", i] =>
     match getW s s.cur, nat? i with
     | some (_, cls, w, f, cs), some i =>
       if cls < 1 || i ≥ f.ps.length then (s, "bad-op", "-") else
       match w.d1 pi (polyDfE cs) f i with
-      | .ok x => (s, sh x, "-")
+      | .ok x => (s, sh x, derivDefined impl)
       | .error e => (dropAll s, excStr e, "-")
     | _, _ => (s, "bad-op", "-")
   | ["w.fdx", i, j, h] =>
@@ -769,7 +830,7 @@ def step (s : St) (op : List String) (impl : Option (List String)) : St × Strin
             | some ("exc:constraint" :: _) => if wfOf w then "FAIL:set_never_raises" else "-"
             | some t => match fls? t, w0.view? f0, w0.names.findIdx? (· == i), w0.names.findIdx? (· == j) with
               | some iv, some v0, some si, some sj => wfdxOk (ctxOf f0 w0 cs) v0 si sj h iv
-              | _, _, _, _ => "FAIL:parse"
+              | _, _, _, _ => if derivDefined impl == "-" then "FAIL:parse" else derivDefined impl
             | none => "-"
           (setWorld s wi f0 w0, shs vals, verdict)
       | _, _ => (dropAll s, "exc:notfound", "-")
@@ -844,7 +905,7 @@ def step (s : St) (op : List String) (impl : Option (List String)) : St × Strin
         if cls < 2 || i ≥ f.ps.length || j ≥ f.ps.length then (s, "bad-op", "-") else
         let r := if i == j then w.d2 pi (polyDfE cs) (polyD2fE cs) f i else w.d2x pi (polyD2fE cs) f i j
         match r with
-        | .ok x => (s, sh x, "-")
+        | .ok x => (s, sh x, derivDefined impl)
         | .error e => (dropAll s, excStr e, "-")
       | _, _, _ => (s, "bad-op", "-")
     else if o == "w.fd" || o == "w.fd1" then
@@ -865,7 +926,7 @@ def step (s : St) (op : List String) (impl : Option (List String)) : St × Strin
               | some ("exc:constraint" :: _) => if wfOf w then "FAIL:set_never_raises" else "-"
               | some t => match fls? t, w0.view? f0, w0.names.findIdx? (· == n) with
                 | some iv, some v0, some slot => wfdOk (ctxOf f0 w0 cs) v0 slot h iv second
-                | _, _, _ => "FAIL:parse"
+                | _, _, _ => if derivDefined impl == "-" then "FAIL:parse" else derivDefined impl
               | none => "-"
             (setWorld s wi f0 w0, shs vals, verdict)
       | _, _, _ => (s, "bad-op", "-")
@@ -882,12 +943,14 @@ def step (s : St) (op : List String) (impl : Option (List String)) : St × Strin
         let b := yn == "1"
         if which == "1" && cls ≥ 1 then
           let f' := { f with d1on := b }
-          ({ s with world := { s.world with fns := s.world.fns.set w.fn f' } },
-            showBool f'.d1on ++ " " ++ showBool f'.d1on ++ " " ++ showBool f'.d2on, "-")
+          let out := showBool f'.d1on ++ " " ++ showBool f'.d1on ++ " " ++ showBool f'.d2on
+          ({ s with world := { s.world with fns := s.world.fns.set w.fn f' } }, out,
+            match impl with | some t => if " ".intercalate t == out then "ok" else "FAIL:enable_delegates" | none => "-")
         else if which == "2" && cls ≥ 2 then
           let f' := { f with d2on := b }
-          ({ s with world := { s.world with fns := s.world.fns.set w.fn f' } },
-            showBool f'.d2on ++ " " ++ showBool f'.d1on ++ " " ++ showBool f'.d2on, "-")
+          let out := showBool f'.d2on ++ " " ++ showBool f'.d1on ++ " " ++ showBool f'.d2on
+          ({ s with world := { s.world with fns := s.world.fns.set w.fn f' } }, out,
+            match impl with | some t => if " ".intercalate t == out then "ok" else "FAIL:enable_delegates" | none => "-")
         else (s, "bad-op", "-")
       | none => (s, "bad-op", "-")
     else (s, "bad-op", "-")
